@@ -1283,6 +1283,25 @@ def one_case(ctx, base, script, with_deepcopy=True):
         a = copy.deepcopy(old)
         put_default_value_objects(a)
         judge_pair(ctx, same, a, copy.deepcopy(a), 'identical-deepcopy-default-objects', witness)
+        # ... compared, then edited IN PLACE (a component removed, another added and removed again), then compared again:
+        # the second comparison reports the edit, whatever the first one looked at
+        c = copy.deepcopy(old)
+        aci = c.attached_components_info
+        if aci is not None and aci.devices:
+            ctx.count('clause:compare-edit-in-place-compare-again')
+            try:
+                first = old.diff(c)
+                gone = sorted(aci.devices)[0]
+                aci.remove_device(gone)
+                d1, d2 = old.diff(c), c.diff(old)
+                rem = sorted(x.resource_name for x in d1.removed.components) if d1 is not None else []
+                add = sorted(x.resource_name for x in d2.added.components) if d2 is not None else []
+                if first is not None or rem != [gone] or add != [gone]:
+                    ctx.violation('C17/second-comparison-after-in-place-edit-wrong', 'comparing an old and a new version reports exactly the '
+                                  'components that were added or removed (the copy had been compared once before it was edited)',
+                                  dict(witness=witness, removed_component=gone, first_comparison=str(first)[:100], removed_reported=rem, added_reported=add))
+            except Exception as e:
+                ctx.violation('C17/second-comparison-after-in-place-edit-raises', f'{type(e).__name__}: {str(e)[:160]}', dict(witness=witness))
         # ... and when a SmartNIC of a hand-built sliver carries no service at all (comparing must not fail)
         b = copy.deepcopy(old)
         aci = b.attached_components_info
